@@ -27,3 +27,4 @@ PROP = {
     "assumptions": STD_ASSUME + ["Range step sizes are >= 1 (a step of 0 never terminates and is outside the quantifier)",
                                  "Transpose_Lists is called with a non-empty outer list; the standard-error clause is judged where the spread exceeds 1e-6 of the largest |value|"],
 }
+PROP["level_text"] += ' Grids also run over ranges scaled by 2^+-40..160 and starting at zero, data sets with offsets up to 1e5 sigma, lists with zeros of either sign and NaN, Range(max) for negative max.'
